@@ -19,6 +19,7 @@ import (
 	"google.golang.org/grpc/balancer"
 	"google.golang.org/grpc/balancer/base"
 	"google.golang.org/grpc/codes"
+	"google.golang.org/grpc/metadata"
 	"google.golang.org/grpc/resolver"
 	"google.golang.org/grpc/status"
 )
@@ -42,12 +43,16 @@ func (s *verifSource) Int63() int64 {
 
 func (s *verifSource) Seed(int64) {}
 
+// verifLoadReport stands in for the load report a server may attach to the trailer (DoneInfo.ServerLoad).
+type verifLoadReport struct{ CPU float64 }
+
 type verifOp struct {
 	Op    string  `json:"op"`    // pick | done | adv
 	Draws []int64 `json:"draws"` // pick: values returned by successive Intn calls (a, b, a, b, ...)
 	K     int     `json:"k"`     // done: index of the successful pick whose Done func is called
 	Code  int     `json:"code"`  // done: -1 nil error, -2 plain (non status) error, else grpc status code
 	Codes []int   `json:"codes"` // done: optional, the code to use per position of the completed conn
+	Flags int     `json:"flags"` // done: the rest of balancer.DoneInfo as gRPC fills it: 1 BytesSent, 2 BytesReceived, 4 Trailer, 8 ServerLoad
 	Dt    int64   `json:"dt"`    // adv: nanoseconds
 }
 
@@ -213,7 +218,14 @@ func TestVerifDriver(t *testing.T) {
 				default:
 					err = status.Error(codes.Code(code), "verif")
 				}
-				tk.done(balancer.DoneInfo{Err: err})
+				info := balancer.DoneInfo{Err: err, BytesSent: op.Flags&1 != 0, BytesReceived: op.Flags&2 != 0}
+				if op.Flags&4 != 0 {
+					info.Trailer = metadata.Pairs("grpc-status", strconv.Itoa(code), "verif", "trailer")
+				}
+				if op.Flags&8 != 0 {
+					info.ServerLoad = &verifLoadReport{CPU: 0.5}
+				}
+				tk.done(info)
 			default:
 				return map[string]any{"error": "unknown op " + op.Op}
 			}
